@@ -295,6 +295,8 @@ inductive Op
   | chpub (old new : Pass)
   | chpriv (w : String) (old new : Pass)
   | signHash (w : String) (branch idx : Nat) (p : Pass)
+  | ksSign (w : String) (branch idx : Nat) (p : Pass)     -- KeystoreManager.SignHash (keystore level, no clearing)
+  | ksClear                                                -- KeystoreManager.ClearPrivKey
   | restart (pub : Pass)
   deriving Repr, Inhabited
 
@@ -485,6 +487,21 @@ def signHash (st : St) (w : String) (branch idx : Nat) (p : Pass) : St × Out :=
     | .err c => fail st c
     | o => (st, o)
 
+/-- KeystoreManager.SignHash: signBtcec on the address manager; the unlock state it leaves stays -/
+def ksSign (st : St) (w : String) (branch idx : Nat) (p : Pass) : St × Out :=
+  match AMap.get st.wal w with
+  | none => (st, .err "key")
+  | some (r, a) =>
+    match signBtcec st.db w r a branch idx p with
+    | (a', .err c) =>
+      -- the passphrase / unknown-address refusals leave the manager as it was (a' = a); a decryption
+      -- failure happens after the unlock flag is set (unreachable on a sealed bucket)
+      if c = "script" then fail (setAM st w r a') c else fail st c
+    | (a', o) => (setAM st w r a', o)
+
+/-- KeystoreManager.ClearPrivKey -/
+def ksClear (st : St) : St × Out := ({ st with wal := clearAll st.wal }, .ok)
+
 /-- process restart: NewKeystoreManager(pub) loads every account; volatile state is lost -/
 def restart (st : St) (pub : Pass) : St × Out :=
   let st := { st with wal := clearAll st.wal }
@@ -503,6 +520,8 @@ def step (st : St) : Op → St × Out
   | .chpub o n => chpub st o n
   | .chpriv w o n => chpriv st w o n
   | .signHash w b i p => signHash st w b i p
+  | .ksSign w b i p => ksSign st w b i p
+  | .ksClear => ksClear st
   | .restart p => restart st p
 
 def run (st : St) (ops : List Op) : St := ops.foldl (fun s o => (step s o).1) st
